@@ -248,7 +248,7 @@ def run_rsa(case, rec):
 # ------------------------------------------------------------------ misc native entry points: strxor, scalars, modexp sizes, KDFs
 @st.composite
 def strat_misc(draw, tier):
-    return {"what": draw(st.sampled_from(["strxor", "strxor_c", "modexp", "mult_modulo", "ec_scalar", "ec_coords", "scrypt", "bcrypt", "pbkdf2", "x25519", "poly1305"])),
+    return {"what": draw(st.sampled_from(["strxor", "strxor_c", "modexp", "mult_modulo", "ec_scalar", "ec_coords", "ec_mixed", "ec_mixed", "scrypt", "bcrypt", "pbkdf2", "x25519", "poly1305"])),
             "n": draw(st.one_of(st.integers(0, 70), st.sampled_from([0, 1, 31, 32, 33, 64, 65, 127, 128, 129, 255, 256, 257, 600]))), "m": draw(st.integers(0, 70)),
             "off": draw(st.integers(0, 15)), "seed": draw(st.binary(min_size=4, max_size=4)), "alias": draw(st.booleans())}
 
@@ -295,6 +295,43 @@ def run_misc(case, rec):
                 libcall(EccXPoint, x, curve, allowed=allowed)
             else:
                 libcall(EccPoint, x, y, curve, allowed=allowed)
+    elif what == "ec_mixed":
+        # operands on two (possibly different) curves, in both orders: the native comparison/addition must refuse or answer without
+        # looking at the other curve's buffers with its own field size
+        from Crypto.PublicKey import ECC
+        c1, c2 = keys.ALL_CURVES[n % 9], keys.ALL_CURVES[m % 9]
+
+        def pt(curve, sel):
+            G = ECC._curves[curve].G
+            if sel == 0:
+                return G.copy()
+            if sel == 1:
+                return G.point_at_infinity()
+            return G * (2 + sel)
+
+        def key(curve, sel):
+            if curve in keys.NIST:
+                return ECC.construct(curve=curve, d=3 + sel)
+            return ECC.construct(curve=curve, seed=bytes([sel + 1]) * keys.SEEDLEN[curve])
+        P, Q = pt(c1, case["off"] % 4), pt(c2, (case["off"] // 4) % 4)
+        for A, B in ((P, Q), (Q, P)):
+            libcall(lambda: A == B, allowed=allowed)
+            libcall(lambda: A != B, allowed=allowed)
+            libcall(lambda: A in [B], allowed=allowed)
+            if hasattr(A, "__add__"):
+                libcall(lambda: A + B, allowed=allowed)
+                libcall(lambda: A.copy().__iadd__(B), allowed=allowed)
+            # set(): the receiver takes over the other point; afterwards it must be usable (and describe itself) as a point of that curve
+            k_, C_ = libcall(lambda: A.copy().set(B), allowed=allowed)
+            if k_ == "ok":
+                libcall(lambda: (C_ == B, C_.curve, C_.size_in_bytes(), None if C_.is_point_at_infinity() else int(C_.x)), allowed=allowed)
+                if type(A) is type(B) and (C_.curve != B.curve or not (C_ == B)):
+                    raise Violation("ec/set-leaves-stale-curve", "after P.set(Q) the receiver does not describe itself as a point of Q's curve / is not equal to Q",
+                                    c1=c1, c2=c2)
+        K1, K2 = key(c1, case["off"] % 3), key(c2, case["off"] % 2)
+        for A, B in ((K1, K2), (K2, K1), (K1.public_key(), K2), (K1, K2.public_key())):
+            libcall(lambda: A == B, allowed=allowed)
+            libcall(lambda: A != B, allowed=allowed)
     elif what == "scrypt":
         from Crypto.Protocol.KDF import scrypt
         libcall(scrypt, a, b[:m], max(1, m), 2 << (m % 4), 1 + m % 3, 1 + m % 2, allowed=allowed)
